@@ -517,6 +517,7 @@ func checkC15(r *core.Run) {
 	for range jobs {
 		<-done
 	}
+	c15Fixed(r, pool)
 	logLines := 0
 	for _, j := range jobs {
 		id := fmt.Sprintf("C15/p%d", j.idx)
@@ -589,4 +590,104 @@ func c15Class(idx uint64) string {
 
 func c15Tag(p *c15Prog, why []string) string {
 	return ""
+}
+
+// fixed shapes (both tiers): helpers shared by several initialisers, reached directly and through other
+// helpers; the whole output is compared with the gc binary of the same source
+var c15FixedProgs = []struct{ name, src string }{
+	{"diamond-over-helpers", `package main
+
+import "fmt"
+
+var a = h("a") + f("a")
+var b = f("b")
+var x = mk("x", 7)
+
+func mk(n string, v int) int { fmt.Println("init", n); return v }
+func h(s string) int        { fmt.Println("h from", s, "x =", x); return x }
+func f(s string) int        { return h(s) + 1 }
+func main()                 { fmt.Println("main", a, b, x) }
+`},
+	{"mutual-recursion-shared", `package main
+
+import "fmt"
+
+var p = even(2)
+var q = odd(3)
+var base = mk("base", 1)
+
+func mk(n string, v int) int { fmt.Println("init", n); return v }
+func even(n int) int {
+	if n == 0 {
+		return base
+	}
+	return odd(n - 1)
+}
+func odd(n int) int {
+	if n == 0 {
+		return base + 10
+	}
+	return even(n - 1)
+}
+func main() { fmt.Println("main", p, q, base) }
+`},
+	{"shared-helper-three-users", `package main
+
+import "fmt"
+
+var u1 = g1() + g2()
+var u2 = g2()
+var u3 = g1()
+var y1 = mk("y1", 3)
+var y2 = mk("y2", 4)
+
+func mk(n string, v int) int { fmt.Println("init", n); return v }
+func leaf() int             { fmt.Println("leaf", y1, y2); return y1 + y2 }
+func g1() int               { return leaf() + y1 }
+func g2() int               { return g1() + leaf() }
+func main()                 { fmt.Println("main", u1, u2, u3) }
+`},
+	{"method-and-closure-share-helper", `package main
+
+import "fmt"
+
+type T struct{ k int }
+
+func (t T) M() int { return helper() + t.k }
+
+var m1 = T{1}.M() + helper()
+var m2 = func() int { return T{2}.M() }()
+var z = mk("z", 5)
+
+func mk(n string, v int) int { fmt.Println("init", n); return v }
+func helper() int           { fmt.Println("helper z =", z); return z }
+func main()                 { fmt.Println("main", m1, m2, z) }
+`},
+}
+
+func c15Fixed(r *core.Run, pool *core.Pool) {
+	var cases []core.Case
+	for _, fp := range c15FixedProgs {
+		cases = append(cases, core.Case{ID: "C15/fixed/" + fp.name, Mode: "eval", Src: fp.src, TimeoutMs: 60000})
+	}
+	results := pool.RunCases(cases)
+	for k, fp := range c15FixedProgs {
+		cell := "C15/fixed/" + fp.name
+		nat := core.Native(map[string]string{"main.go": fp.src}, r.Work)
+		if nat.BuildErr != "" || nat.Exit != 0 || nat.Timeout {
+			r.Inconclusive(cell, "reference build or run failed: "+firstLines2(nat.BuildErr+nat.Stderr, 3))
+			continue
+		}
+		res := results[k]
+		switch {
+		case res.Crash || res.Timeout || res.HostPanic != "":
+			r.Fail(cell, map[string]any{"diff": "abnormal ending: " + res.Ending() + " " + firstLines2(res.CrashMsg+res.HostPanic, 3), "src": fp.src})
+		case res.ErrClass != "":
+			r.Fail(cell, map[string]any{"diff": "error: " + res.ErrClass + " " + firstLines2(res.ErrText, 3), "src": fp.src})
+		case res.Out != nat.Out:
+			r.Fail(cell, map[string]any{"diff": fmt.Sprintf("output %q, gc: %q", res.Out, nat.Out), "src": fp.src})
+		default:
+			r.Ok(cell)
+		}
+	}
 }
